@@ -672,6 +672,18 @@ def c_two_spacers(repo):
     return {'reader': src(t)}
 
 
+@control(['C09', 'C14'], 'unguarded-second-pass', ['R09.j'], 'enter the second bracket pass of read_args without the adjacency test')
+def c_second_pass(repo):
+    t = parse(repo, 'reader')
+    fn = find_func(t, 'read_args')
+    ifs = [n for n in fn.body if isinstance(n, ast.If) and 'BracketBegin' in ast.unparse(n.test)]
+    if not ifs:
+        raise NotApplicable('second bracket pass of read_args')
+    i = fn.body.index(ifs[0])
+    fn.body[i:i + 1] = ifs[0].body
+    return {'reader': src(t)}
+
+
 @control(['C09'], 'spacer-selects-branch', ['R09.d'], 'attach a brace group only when no whitespace precedes it')
 def c_spacer_branch(repo):
     t = parse(repo, 'reader')
